@@ -44,12 +44,20 @@ def configs(tier: str) -> list[dict]:
             c.append(dict(variant="early", T=T, n=None, k=k,
                           bound=None if T == 1 else b))
     # -- failing mapped function --------------------------------------
-    for T, nmax in ((1, 3), (2, 3 if not thorough else 5)):
+    # (n below, at and above 2T+2: whether sentinels are already in flight
+    # when the failure is handled depends on it)
+    for T, nmax in ((1, 6 if not thorough else 8), (2, 4 if not thorough else 6)):
         for n in range(1, nmax + 1):
             for p in range(n):
                 c.append(dict(variant="fail", T=T, n=n, p=p))
-    c.append(dict(variant="fail", T=2, n=7, p=6, bound=b))
-    c.append(dict(variant="fail", T=3, n=4, p=1, bound=b))
+    for n in (6, 7, 8):
+        for p in sorted({0, 2, n - 1}):
+            if not (thorough and n <= 6):
+                c.append(dict(variant="fail", T=2, n=n, p=p,
+                              bound=None if thorough else 2))
+    for n, p in ((4, 1), (8, 0), (8, 5), (10, 1)):
+        c.append(dict(variant="fail", T=3, n=n, p=p, bound=b))
+    # two failing inputs are not needed: the first failure ends the pass
     # -- early exit, then a second complete pass on the same pool ----
     c.append(dict(variant="reuse", T=1, n=2, k=1, n2=2))
     c.append(dict(variant="reuse", T=1, n=4, k=2, n2=1))
